@@ -190,6 +190,10 @@ func (w *Writer) Finish() {
 	}
 }
 
+// Nested, when set, is what a handler step "Nest" does: typically it serves another request on the same
+// server while the outer request is still alive.
+var Nested func()
+
 // Point, when set, is a scheduling point of the controlled scheduler: it is
 // called at handler entry and exit so that a request can be parked inside its
 // handler while other threads run.
@@ -199,18 +203,6 @@ var Point func()
 func Call(w http.ResponseWriter, r *http.Request, route types.Route, h *H) {
 	if Point != nil {
 		Point()
-		defer func() {
-			Point()
-			// what the request sees when it resumes: still its own parameters and node?
-			if o2, _ := r.Context().Value(obsKey{}).(*Obs); o2 != nil && route != nil {
-				o2.ParamsExit = map[string]string{}
-				route.Params().Range(func(k, v string) { o2.ParamsExit[k] = v })
-				o2.RouterExit = route.RouterName()
-				if n := route.Node(); n != nil && !isNilNode(n) {
-					o2.PatternExit = n.Pattern()
-				}
-			}
-		}()
 	}
 	o, _ := r.Context().Value(obsKey{}).(*Obs)
 	if o == nil {
@@ -268,6 +260,18 @@ func Call(w http.ResponseWriter, r *http.Request, route types.Route, h *H) {
 		o.HAllow = c.Node.AllowHeader()
 	}
 	run(w, r, o, h)
+	if Point != nil {
+		Point()
+	}
+	// what the request sees when its handler is done: still its own parameters and node?
+	if route != nil {
+		o.ParamsExit = map[string]string{}
+		route.Params().Range(func(k, v string) { o.ParamsExit[k] = v })
+		o.RouterExit = route.RouterName()
+		if n := route.Node(); n != nil && !isNilNode(n) {
+			o.PatternExit = n.Pattern()
+		}
+	}
 }
 
 func isNilNode(n types.Node) bool {
@@ -311,6 +315,10 @@ func run(w http.ResponseWriter, r *http.Request, o *Obs, h *H) {
 				w.Header().Set(s.K, s.V)
 			case "Del":
 				w.Header().Del(s.K)
+			case "Nest":
+				if Nested != nil {
+					Nested()
+				}
 			}
 		}
 	}
